@@ -40,7 +40,8 @@ def build_layout(box, rnd, srcrel):
     names = ["a.rs", ".hidden.rs", "UPPER.RS", "c.rsx", "d.rs.bak", "noext", "e.Rs", "notes.txt", "two.dots.rs",
              "deep/x/y/z/b.rs", "deep/x/other.rsx", "dir.rs/inner.rs", "dir.rs/inner.txt", "sp ace/s p.rs", "uni-é/ü.rs",
              ".hidden_dir/inner.rs", ".hidden_dir/.also_hidden.rs", "proto.v2/client.rs", "conf.d/x.rs", "v1.0/y.rs", "a.b.c/z.rs",
-             "trailingdot./w.rs", "..weird/q.rs", "pkg.rsx/inside.rs", "name.bak/deep/er.rs", "d1/d2/d3/d4/d5/d6/d7/d8/d9/d10/very_deep.rs", "target/debug/build.rs"]
+             "trailingdot./w.rs", "..weird/q.rs", "pkg.rsx/inside.rs", "name.bak/deep/er.rs",
+             "Events.rs", "events.rs", "API/mod.rs", "api/mod.rs", "api/MOD.rs", "socket.unix.rs", "api.v2.rs", "d1/d2/d3/d4/d5/d6/d7/d8/d9/d10/very_deep.rs", "target/debug/build.rs"]
     # extensions that are substrings / superstrings / permutations of the configured ones (passed in by the caller)
     for e in getattr(build_layout, "exts", []):
         near = {e[1:], e[:-1], e + e, e + "~", "a" + e, e[::-1], e.upper() if e.upper() != e else e.lower(), e + "."}
